@@ -77,6 +77,12 @@ static void setup(int depth, int msg, int slack)
 		memset(B.store + base_len - (size_t)slack, 0xA7, (size_t)slack);
 	}
 	memset(&A.q, 0x55, sizeof(A.q));
+	{
+		/* messageq_init describes a fresh queue whatever the descriptor held before (a previous life, or junk) */
+		static unsigned inits;
+		if (inits++ & 1)
+			memset(&A.q, 0xA5, sizeof(A.q));
+	}
 	messageq_init(&A.q, A.store, base_len, (size_t)M);
 	/* the static initialiser is handed expressions (non-byte pointer arithmetic, sums): macro hygiene */
 	uint32_t *words = (uint32_t *)B_block;
